@@ -60,16 +60,17 @@ class FlagHook:
 
 
 class C05System(BuilderSystem):
-    def __init__(self, label, bounded, hooks=False):
+    def __init__(self, label, bounded, hooks=False, box=((0, 0, -1), (4, 4, 1))):
         self.label = label
         self.bounded = bounded
         self.hooks = hooks
+        self.box = box
         self.cfg = {}
 
     def setup(self, st):
         if self.bounded:
             g = st.g
-            g.set_bounds("axes", (0, 0, -1), (4, 4, 1))
+            g.set_bounds("axes", *self.box)
             # distinct ranges: a value can violate exactly one of them
             g.set_bounds("feed-rate", 10, 100)
             g.set_bounds("tool-power", 0, 60)
@@ -127,7 +128,12 @@ class C05System(BuilderSystem):
                 ["set_bed_temperature", [150]], ["set_chamber_temperature", [90]], ["halt", ["wait-for-bed"], {"S": 150}],
                 ["halt", ["wait-for-chamber"], {"R": 90}], ["set_tool_power", [80]], ["tool_on", ["clockwise", 80]],
                 ["power_on", ["dynamic", 80]], ["set_feed_rate", [5]],
-                ["set_bed_temperature", [NAN]],
+                ["set_bed_temperature", [NAN]], ["set_hotend_temperature", [NAN]], ["set_chamber_temperature", [NAN]],
+                ["set_bed_temperature", [INF]], ["set_hotend_temperature", [INF]], ["set_chamber_temperature", [INF]],
+                ["set_hotend_temperature", [260]],
+                # calls that leave axes unknown: legal under any box (unknown coordinates are not out of bounds)
+                ["auto_home", [], {}], ["auto_home", [], {"x": 0}], ["probe", ["towards"], {"z": 1}], ["set_axis", [], {"x": 2}],
+                ["set_axis", [], {"z": 1}],
                 ["sleep", [-1]], ["sleep", [NAN]], ["set_fan_speed", [300]], ["set_fan_speed", [10, -1]], ["set_fan_speed", [NAN]],
                 ["set_distance_mode", ["bogus"]], ["set_extrusion_mode", ["bogus"]], ["set_feed_mode", ["bogus"]],
                 ["set_length_units", ["bogus"]], ["set_plane", ["bogus"]], ["set_direction", ["bogus"]],
@@ -211,7 +217,8 @@ ASSUMPTIONS = ["multi-statement calls (tracer shapes, emergency_halt) and wrong 
 def systems(tier):
     d = 2 if tier == "quick" else 3
     return [("bounded", C05System("bounded", True), d, None), ("unbounded", C05System("unbounded", False), d, None),
-            ("bounded-hooks", C05System("bounded-hooks", True, hooks=True), d, None)]
+            ("bounded-hooks", C05System("bounded-hooks", True, hooks=True), d, None),
+            ("bounded-box-excludes-zero", C05System("bounded-box-excludes-zero", True, box=((1, 1, 0.5), (4, 4, 1))), d, None)]
 
 
 def run(tier, seed):
